@@ -86,7 +86,11 @@ def hostile_values(width_bytes):
                          [True] * n, [float("nan")] + [1] * (n - 1)]))
     other = st.sampled_from([None, True, False, (), (1, 2), {}, {"a": 1}, [None], 1j, b"", "", "x",
                              [1.5], bytearray(b"\x01")])
-    return st.one_of(ints, floats, seqs, other)
+    # text and bytes that *look* like numbers (float() and int() accept several of them)
+    looks = st.sampled_from(["12", b"12", " 7 ", b" 7 ", "1e3", b"1e3", "inf", b"inf", "nan", b"nan", "-0", b"-0.0",
+                             "0x10", "1_000", b"1_0", bytearray(b"42"), bytearray(b"298"), b"298", "\u0663", "\u00bd",
+                             "+5", b"+5", "1.", b".5", "1e400", b"1e-400", "Infinity", b"-Infinity", "0b1", "١٢"])
+    return st.one_of(ints, floats, seqs, other, looks)
 
 
 def sequence_fields(defn):
